@@ -1570,7 +1570,7 @@ pub fn suite_text(ctx: &mut Ctx) {
     // PASTED lines: an old text of distinct lines, a new text in which a few of them are dropped and a few EXISTING lines are
     // pasted in a second time elsewhere (nothing repeats in old, shared lines repeat in new), on both sides of the 100-token
     // switch -- the shape in which an insertion can slide although "nothing repeats"
-    let npaste = if ctx.tier == Tier::Quick { 700u64 } else { 8000 };
+    let npaste = if ctx.tier == Tier::Quick { 4000u64 } else { 40000 };
     for i in 0..npaste {
         if !ctx.take() {
             continue;
@@ -1579,17 +1579,20 @@ pub fn suite_text(ctx: &mut Ctx) {
         let n = if i % 3 == 0 { rng.range(6, 40) } else { rng.range(101, 140) };
         let old: Vec<String> = (0..n).map(|k| format!("k{}\n", k)).collect();
         let mut new = old.clone();
+        // all of it inside one window of ten lines (drops and interleaved pastes close together), sometimes anywhere
+        let w = rng.below(n.saturating_sub(10).max(1));
+        let span = if rng.chance(4, 5) { 10.min(n) } else { n };
+        let w = if span == n { 0 } else { w };
         for _ in 0..rng.below(3) {
-            let at = rng.below(new.len());
+            let at = (w + rng.below(span)).min(new.len() - 1);
             new.remove(at);
         }
-        for _ in 0..rng.range(1, 4) {
-            let src = rng.below(n);
-            // mostly right behind another copy of a neighbour (interleaved pastes), sometimes anywhere
-            let at = if rng.chance(2, 3) { (src + rng.below(6)).min(new.len()) } else { rng.below(new.len() + 1) };
+        for _ in 0..rng.range(2, 4) {
+            let src = w + rng.below(span);
+            let at = (w + rng.below(span + 1)).min(new.len());
             new.insert(at, old[src].clone());
         }
-        let c = TextCfg { kind: Kind::Lines, alg: [Algorithm::Patience, Algorithm::Patience, Algorithm::Myers, Algorithm::Lcs][(i % 4) as usize], nlt: None, dl: None };
+        let c = TextCfg { kind: Kind::Lines, alg: [Algorithm::Patience, Algorithm::Patience, Algorithm::Patience, Algorithm::Patience, Algorithm::Myers, Algorithm::Lcs][(i % 6) as usize], nlt: None, dl: None };
         ctx.count("text.pasted_line_cases");
         let (o, nn) = (old.concat(), new.concat());
         if i % 5 == 0 {
